@@ -8,10 +8,13 @@ package checks
 // step returns what the same participant's list returns when run alone.
 
 import (
+	"bytes"
+	"database/sql"
 	"fmt"
 	"os"
 	"path/filepath"
 	"strings"
+	"time"
 
 	"verif/internal/ev"
 
@@ -242,4 +245,112 @@ func c20Replace(r *ev.Run, dir string, imgA, imgB []byte) {
 	}
 	rec(nil, make([]int, len(steps)))
 	r.Set("file_replaced_interleavings", n)
+}
+
+// c20FailedOpens: long histories of ONE failing step repeated, then one healthy call: whatever a failed open or a
+// failed statement keeps (a place in a process-wide table, a descriptor, a lock) adds up until it changes what an
+// independent handle on a healthy file returns. Kind H, depth = the repetition count (300 quick, 3000 thorough).
+func c20FailedOpens(r *ev.Run, imgA []byte) {
+	dir := ev.TmpDir("c20fail")
+	defer os.RemoveAll(dir)
+	good := filepath.Join(dir, "good.sqlite")
+	os.WriteFile(good, imgA, 0o644)
+	bad := map[string]string{
+		"missing-file":   filepath.Join(dir, "nosuch.sqlite"),
+		"not-a-database": filepath.Join(dir, "garbage.sqlite"),
+		"wal-mode":       filepath.Join(dir, "wal.sqlite"),
+		"a-directory":    dir,
+	}
+	os.WriteFile(bad["not-a-database"], bytes.Repeat([]byte("this is no database. "), 200), 0o644)
+	wal := append([]byte{}, imgA...)
+	wal[18], wal[19] = 2, 2
+	os.WriteFile(bad["wal-mode"], wal, 0o644)
+	healthy := func(viaDriver bool) string {
+		if viaDriver {
+			db, err := sql.Open("sqlittle", good)
+			if err != nil {
+				return "open: " + err.Error()
+			}
+			defer db.Close()
+			rows, err := db.Query("SELECT a, b, c FROM t1")
+			if err != nil {
+				return "query: " + err.Error()
+			}
+			defer rows.Close()
+			n := 0
+			for rows.Next() {
+				n++
+			}
+			return fmt.Sprintf("%d rows, err=%v", n, rows.Err())
+		}
+		h, err := sqlittle.Open(good)
+		if err != nil {
+			return "open: " + err.Error()
+		}
+		defer h.Close()
+		return lifeSelect(h)
+	}
+	want := map[bool]string{true: healthy(true), false: healthy(false)}
+	reps := 300
+	if r.Thorough() {
+		reps = 3000
+	}
+	r.Set("failed_open_repetitions", reps)
+	kinds := []string{"missing-file", "not-a-database", "wal-mode", "a-directory"}
+	for _, kind := range kinds {
+		for _, failVia := range []string{"driver", "native", "driver-statement"} {
+			for _, viaDriver := range []bool{true, false} {
+				name := fmt.Sprintf("%d x failing %s (%s), then a healthy file through the %s", reps, kind, failVia, map[bool]string{true: "driver", false: "native API"}[viaDriver])
+				art := map[string]interface{}{"family": "failed-opens", "history": name}
+				r.Eval(1)
+				r.Trans(reps + 1)
+				r.NontrivialN(1)
+				r.State(name)
+				var got string
+				ok := ev.Within(2*time.Minute, func() {
+					switch failVia {
+					case "driver":
+						db, err := sql.Open("sqlittle", bad[kind])
+						if err == nil {
+							for i := 0; i < reps; i++ {
+								if rows, err := db.Query("SELECT a FROM t1"); err == nil {
+									rows.Close()
+								}
+							}
+							db.Close()
+						}
+					case "driver-statement":
+						// the open works, the statement does not
+						db, err := sql.Open("sqlittle", good)
+						if err == nil {
+							for i := 0; i < reps; i++ {
+								q := []string{"SELECT nosuch FROM t1", "SELECT a FROM nosuch", "garbage", "DELETE FROM t1"}[i%4]
+								if rows, err := db.Query(q); err == nil {
+									for rows.Next() {
+									}
+									rows.Close()
+								}
+							}
+							db.Close()
+						}
+					default:
+						for i := 0; i < reps; i++ {
+							if h, err := sqlittle.Open(bad[kind]); err == nil {
+								h.Close()
+							}
+						}
+					}
+					got = healthy(viaDriver)
+				})
+				if !ok {
+					r.Violation("C20:failed-opens:hang", name+": does not return within 2 minutes", art)
+					r.NotExhaustive("failed-open histories stopped at the first one that does not return")
+					return
+				}
+				if got != want[viaDriver] {
+					r.Violation("C20:failed-opens:result-differs", fmt.Sprintf("%s: %s, on its own: %s", name, clipS(got, 200), clipS(want[viaDriver], 200)), art)
+				}
+			}
+		}
+	}
 }
